@@ -82,6 +82,15 @@ func syncLogs(repo *chain.Repository, ldb *logdb.LogDB) error {
 // epochs only at the end - the shape in which F2's missing quality makes findCheckpointByQuality fail.
 var wedge = false
 
+// sideways: a scripted tree in which a STALE side head is a committed store point that conflicts with the finalized
+// checkpoint (validators 1..3 vote COM in the same round of two branches - more than a third equivocate):
+//   prefix 1..5 (epoch 1 justified), B = 6..11 (epoch 2 unjustified: two signers, epoch 3 committed: finalizes block 3),
+//   A = 6'..11' from block 5 (epochs 2 and 3 committed: finalizes 6'), then the trunk continues on A.
+// After that every restart finds B's head among the branch heads: a start-up repair that commits it again moves the
+// finalized checkpoint from 6' to B's block 6. Only cuts after A took over are run.
+var sideways = false
+var sidewaysFrom = 0 // stream position of A's last scripted block
+
 func buildStream(seed int64, blocks int) *world {
 	rng := rand.New(rand.NewSource(seed))
 	E := uint32(3)
@@ -149,6 +158,29 @@ func buildStream(seed int64, blocks int) *world {
 		return blk
 	}
 	trunk := []*block.Block{net.B0}
+	if sideways {
+		ext := func(parent *block.Block, signers []int, com bool) []*block.Block {
+			var out []*block.Block
+			for _, who := range signers {
+				nb := mint(parent, who, com, rng.Intn(3) == 0)
+				if nb == nil {
+					panic("sideways: name clash")
+				}
+				out = append(out, nb)
+				parent = nb
+			}
+			return out
+		}
+		prefix := ext(net.B0, []int{1, 2, 3, 1, 2}, false)
+		fork := prefix[len(prefix)-1]
+		b := ext(fork, []int{1, 2, 1}, false)
+		b = append(b, ext(b[len(b)-1], []int{1, 2, 3}, true)...)
+		a := ext(fork, []int{2, 3, 1, 2, 3, 1}, true)
+		w.stream = append(append(append(w.stream, prefix...), b...), a...)
+		sidewaysFrom = len(w.stream) - 1
+		trunk = append(append(trunk, prefix...), a...)
+		blocks = len(trunk) + 2 + rng.Intn(3)
+	}
 	var pendingSide []*block.Block // side blocks delivered late
 	deepLeft := 2                  // deep reorganisations per stream
 	for len(trunk) <= blocks {
@@ -165,6 +197,9 @@ func buildStream(seed int64, blocks int) *world {
 			who = 1 + int(num)%3
 			com = num >= 6*E
 		}
+		if sideways {
+			who, com = 1+int(num)%3, true
+		}
 		blk := mint(parent, who, com, rng.Intn(2) == 0)
 		if blk == nil {
 			continue
@@ -172,7 +207,7 @@ func buildStream(seed int64, blocks int) *world {
 		trunk = append(trunk, blk)
 		w.stream = append(w.stream, blk)
 		// forks: a sibling of the new block (same parent, another signer), sometimes extended, delivered now or late
-		if !wedge && rng.Intn(4) == 0 {
+		if !wedge && !sideways && rng.Intn(4) == 0 {
 			sw := 1 + (who+rng.Intn(2))%3 // another one of 1..3
 			if s := mint(parent, sw, rng.Intn(2) == 0, rng.Intn(2) == 0); s != nil {
 				side := []*block.Block{s}
@@ -194,7 +229,7 @@ func buildStream(seed int64, blocks int) *world {
 		}
 		// a deep reorganisation: a branch leaving the trunk 2..4 blocks back, with transactions (logs) at every height,
 		// grows two blocks past the trunk's head and takes over - the log db has to truncate and rewrite several blocks
-		if !wedge && deepLeft > 0 && len(trunk) > 6 && rng.Intn(5) == 0 {
+		if !wedge && !sideways && deepLeft > 0 && len(trunk) > 6 && rng.Intn(5) == 0 {
 			back := 2 + rng.Intn(3)
 			forkAt := len(trunk) - 1 - back
 			cur := trunk[forkAt]
@@ -224,7 +259,7 @@ func buildStream(seed int64, blocks int) *world {
 	// positions after which the node under test produces a block of its own on its best block (decided here, produced
 	// for the first time by the reference run, which inserts the block into the stream)
 	for i := 2; i < len(w.stream); i++ {
-		if !wedge && rng.Intn(6) == 0 {
+		if !wedge && !sideways && rng.Intn(6) == 0 {
 			w.ownAt[i] = true
 		}
 	}
@@ -428,6 +463,7 @@ func main() {
 	maxcuts := flag.Int("maxcuts", 0, "0 = all cuts, else a seeded sample of that many")
 	double := flag.Bool("double", false, "add a second crash during the resumed run for a sample of cuts")
 	flag.BoolVar(&wedge, "wedge", false, "linear stream with late commits; only the q cuts are run (F2 wedge)")
+	flag.BoolVar(&sideways, "sideways", false, "scripted tree with a stale committed side head that conflicts with the finalized checkpoint")
 	flag.Parse()
 	must(os.MkdirAll(*out, 0o755))
 	// the recording engine stands in for thor's LevelEngine: check the contract that makes this sound on the REAL one
@@ -579,6 +615,20 @@ func main() {
 	cuts := make([]int, 0, ref.n+1)
 	for k := 0; k <= ref.n; k++ {
 		cuts = append(cuts, k)
+	}
+	if sideways {
+		var late []int
+		for _, k := range cuts {
+			if k == ref.n || ref.writePos[k] > sidewaysFrom {
+				late = append(late, k)
+			}
+		}
+		cuts = late
+		ref.base = 0
+		if block.Number(ref.fin) < 6 || !isAnc(w, ref.fin, ref.best) {
+			fmt.Println("HARNESS-ERROR sideways tree: the uninterrupted node did not finalize on branch A:", block.Number(ref.fin))
+			os.Exit(3)
+		}
 	}
 	if *maxcuts > 0 && len(cuts) > *maxcuts {
 		w.rng.Shuffle(len(cuts), func(i, j int) { cuts[i], cuts[j] = cuts[j], cuts[i] })
